@@ -9,6 +9,7 @@ import (
 	"os/exec"
 	"strings"
 	"sync"
+	"sync/atomic"
 	"time"
 
 	"github.com/protobom/protobom/pkg/formats"
@@ -169,7 +170,51 @@ func runStress(op M) any {
 				count(6 * iters)
 			}(w)
 		}
-		wg.Wait()
+		// one owner registers and removes a format over and over while others keep looking that very
+		// format up: once Unregister has returned, the owner's own lookups and writes must fail (in
+		// every sequential order of these calls the removal comes before them)
+		{
+			watched := formats.Format("verif/watched")
+			var stop atomic.Bool
+			var lookers sync.WaitGroup
+			for l := 0; l < 6; l++ {
+				lookers.Add(1)
+				go func() {
+					defer lookers.Done()
+					for !stop.Load() {
+						_, _ = writer.GetFormatSerializer(watched)
+						_, _ = reader.GetFormatUnserializer(watched)
+					}
+				}()
+			}
+			wg.Add(1)
+			go func() {
+				defer wg.Done()
+				defer stop.Store(true)
+				for i := 0; i < iters*4; i++ {
+					name := fmt.Sprintf("watched-%d", i)
+					guard(v, "watched registration", func() {
+						writer.RegisterSerializer(watched, &markSerializer{name})
+						reader.RegisterUnserializer(watched, &markDriver{name})
+						writer.UnregisterSerializer(watched)
+						reader.UnregisterUnserializer(watched)
+						if x, err := writer.GetFormatSerializer(watched); x != nil || err == nil {
+							v.add("round %d: the serializer for %s is still found after UnregisterSerializer returned (others were only looking it up)", i, watched)
+						}
+						if u, err := reader.GetFormatUnserializer(watched); u != nil || err == nil {
+							v.add("round %d: the driver for %s is still found after UnregisterUnserializer returned (others were only looking it up)", i, watched)
+						}
+						buf := nopCloser{&bytes.Buffer{}}
+						if err := writer.New().WriteStreamWithOptions(tinyDoc, buf, &writer.Options{Format: watched}); err == nil {
+							v.add("round %d: a write in %s succeeded after its serializer was removed and wrote %q", i, watched, buf.String())
+						}
+					})
+				}
+				count(7 * iters * 4)
+			}()
+			wg.Wait()
+			lookers.Wait()
+		}
 	case "io":
 		// detection, parsing and writing of independent documents: each result equals its sequential result
 		type item struct {
